@@ -89,12 +89,24 @@ func reportDivisionResult(queues map[common_info.QueueID]*rs.QueueAttributes) {
 	}
 }
 
+// sortedQueues returns the queues in a fixed (UID) order, so that the floating point sums of the
+// division do not depend on Go's randomized map iteration order.
+func sortedQueues(queues map[common_info.QueueID]*rs.QueueAttributes) []*rs.QueueAttributes {
+	ids := maps.Keys(queues)
+	slices.Sort(ids)
+	sorted := make([]*rs.QueueAttributes, 0, len(ids))
+	for _, id := range ids {
+		sorted = append(sorted, queues[id])
+	}
+	return sorted
+}
+
 func setDeservedResource(
 	totalResourceAmount float64, queues map[common_info.QueueID]*rs.QueueAttributes,
 	resource rs.ResourceName,
 ) (remainingAmount float64) {
 	remainingAmount = totalResourceAmount
-	for _, queue := range queues {
+	for _, queue := range sortedQueues(queues) {
 		resourceShare := queue.ResourceShare(resource)
 		deserved := resourceShare.Deserved
 		if deserved == commonconstants.UnlimitedResourceQuantity {
@@ -174,7 +186,7 @@ func divideUpToFairShare(totalResourceAmount, kValue float64, queues map[common_
 			break
 		}
 
-		for _, queue := range queues {
+		for _, queue := range sortedQueues(queues) {
 			if totalResourceAmount == 0 {
 				log.InfraLogger.V(7).Infof("no more resources, exiting")
 				break
@@ -229,7 +241,7 @@ func calcShareWeights(queues map[common_info.QueueID]*rs.QueueAttributes, resour
 
 	shareWeightsPerQueue := make(map[common_info.QueueID]float64)
 	shareWeightsSum := 0.0
-	for _, queue := range queues {
+	for _, queue := range sortedQueues(queues) {
 		if isQueueSatisfied(queue, resourceName) {
 			continue
 		}
@@ -305,7 +317,7 @@ func getResourceToGiveInCurrentRound(fairShare float64, requested float64, queue
 }
 
 func getTotalWeightsForUnsatisfied(queues map[common_info.QueueID]*rs.QueueAttributes, resourceName rs.ResourceName) (totalOverQuotaWeights float64) {
-	for _, queue := range queues {
+	for _, queue := range sortedQueues(queues) {
 		remainingRequested := getRemainingRequested(queue, resourceName)
 		if remainingRequested > 0 {
 			totalOverQuotaWeights += queue.ResourceShare(resourceName).OverQuotaWeight
